@@ -10,6 +10,8 @@ mod c02;
 #[cfg(kani)]
 mod c04;
 #[cfg(kani)]
+mod c10;
+#[cfg(kani)]
 mod c18;
 #[cfg(kani)]
 mod c19;
